@@ -225,6 +225,26 @@ class _Req(object):
         self.matches = {}
 
 
+def _resource(methods, p1, p2, hit, Response):
+    import types
+    from mpgameserver import http_server as hs
+    deco = {"GET": hs.get, "POST": hs.post}
+
+    def zz_first(self, req):
+        hit.append((1, dict(req.matches)))
+        return Response(b"1", 201)
+
+    def aa_second(self, req):
+        hit.append((2, dict(req.matches)))
+        return Response(b"2", 202)
+
+    def body(ns):
+        ns["zz_first"] = deco[methods[0]](p1)(zz_first)
+        ns["Mid"] = 7
+        ns["aa_second"] = deco[methods[1]](p2)(aa_second)
+    return types.new_class("TableResource", (hs.Resource,), {}, body)()
+
+
 def table_work_init(tier):
     work_init(tier)
     global _TIER
@@ -250,13 +270,17 @@ def table_check(tier, rep_counts, p1s):
         pats = patterns(1 if tier == "quick" else 2) + (["/a/:p", "/:p/a", "/a.b/:r+", "/a/:r*"] if tier == "quick" else [])
         pths = paths(3)
         for p1, p2 in itertools.product(p1s, pats):
-            for methods, calls in ((("GET", "GET"), 1), (("GET", "POST"), 1), (("GET", "GET"), 2)):
+            for methods, calls in ((("GET", "GET"), 1), (("GET", "POST"), 1), (("GET", "GET"), 2), (("GET", "GET"), "resource")):
                 router = Router()
                 hit = []
                 r1 = Route("r1", methods[0], p1, lambda req: (hit.append((1, dict(req.matches))), Response(b"1", 201))[1])
                 r2 = Route("r2", methods[1], p2, lambda req: (hit.append((2, dict(req.matches))), Response(b"2", 202))[1])
                 r2.options = {}
-                if calls == 1:
+                if calls == "resource":
+                    # the documented way: a Resource subclass with decorated methods, declared in this order under
+                    # names that do NOT sort in declaration order; its routes() are registered
+                    router.registerRoutes(_resource(methods, p1, p2, hit, Response).routes())
+                elif calls == 1:
                     router.registerRoutes([r1, r2])
                 else:
                     # two resources registered one after the other: the first registered route still wins
@@ -281,7 +305,7 @@ def table_check(tier, rep_counts, p1s):
                         else:
                             expect = 404
                         if resp.status_code != expect:
-                            key = ("dispatch", "dispatch status %s, documented %s (%s%s)" % (resp.status_code, expect, "first-match/method" if expect != 404 else "must be 404", ", routes registered by two registerRoutes calls" if calls == 2 else ""))
+                            key = ("dispatch", "dispatch status %s, documented %s (%s%s)" % (resp.status_code, expect, "first-match/method" if expect != 404 else "must be 404", ", routes registered by two registerRoutes calls" if calls == 2 else (", routes declared in a Resource subclass" if calls == "resource" else "")))
                             viols.setdefault(key, [0, {"p1": p1, "p2": p2, "methods": methods, "method": method, "path": path},
                                                    "table [%s %r, %s %r] request %s %r -> %s, expected %s" % (methods[0], p1, methods[1], p2, method, path, resp.status_code, expect)])[0] += 1
                         elif expect != 404:
